@@ -13,7 +13,7 @@ RULE = ("seeded histories of create/copy/set/destroy/generate/generate-pair/unwr
         "length 0..300000 around stdio-buffer boundaries, mechanism sets, nested wrap/unwrap templates, dates), token and session objects, interleaved with C_Finalize/C_Initialize and a second "
         "library copy started cold on the same simulated disk; every new object is read back once (learn-then-pin) and every later read-out - other session, after restart, other copy - must return the "
         "supplied/pinned values; an independent decoder parses the simulated disk and must recover the same attribute maps (private values decrypted with the model's PIN). A quarter of the runs inject "
-        "1-3 file-operation faults into mutating calls: a call that returned CKR_OK must have persisted its effect. Golden fixtures written by the pinned build are loaded as initial disks. Every third plan runs on the SQLite object store over the same simulated disk (faults then hit SQLite's own reads, writes, syncs, journal opens and deletions). "
+        "1-3 file-operation faults into mutating calls: a call that returned CKR_OK must have persisted its effect. Golden fixtures written by the pinned build (three of the file store, two of the SQLite store) are loaded as initial disks. Every third plan runs on the SQLite object store over the same simulated disk (faults then hit SQLite's own reads, writes, syncs, journal opens and deletions). "
         "Distinct+non-trivial: (operation, object kind, token/private, value-size class, where it was read back, stdio buffer knob).")
 PROBES = ["readout_after_restart", "readout_in_cold_copy", "disk_decoded", "private_value_decrypted", "large_value", "nested_template", "mechanism_set", "destroyed_absent", "session_object_gone", "pinned_compared", "fixture_loaded", "fault_fired", "ok_under_fault_checked", "db_backend_runs", "db_disk_decoded"]
 DEATH_IS_VIOLATION = ()
@@ -89,6 +89,7 @@ def gen_fixture(seed, path, index):
         ops.append({"act": "readout", "s": s, "tmpl": [], "types": PIN_TYPES, "fixture": t["ref"]})
     ops.append({"act": "disk", "data": True})
     knobs = {"readdir": ["creation", "reverse", "name", "shuffle"][index % 4], "stdio_buf": [512, 4096, 8192, 65536][(index // 2) % 4], "proc_umask": "022", "policy": "call", "conf": {}}
+    if fx.get("backend") == "db": knobs["conf"]["objectstore.backend"] = "db"
     return {"v": 1, "property": "C05", "seed": seed, "profile": "fixture", "knobs": knobs, "tasks": [{"pid": 1, "ops": ops}], "faults": [], "disk": {"files": fx["files"]}, "fixture": os.path.basename(path)}
 
 def _v(cls, msg, **kw):
@@ -292,4 +293,4 @@ TECHNIQUE = "deterministic simulation with fault injection: seeded store histori
 CLAIM = ("Seeded exploration: the real library stores objects on the simulated disk (real glibc buffering, varied buffer sizes, readdir orders, short writes); every acknowledged creation, copy, change and destruction is "
          "checked after C_Finalize/C_Initialize and in a second library copy started cold, attribute by attribute; an independent decoder (own parser, S2K and AES via EVP) must read the same values from the raw "
          "disk, which pins the format together with golden fixtures written by the pinned build; with injected file-operation faults a call that answered CKR_OK must still have persisted its effect. Evidence, not proof.")
-NOTE = "Trusted: reference model, the format specification in DESIGN 2.7 (implemented by tools/decoder.py), the simfs stub. Both object stores: a third of the generated plans run on the SQLite store, which reaches the simulated disk through a SQLite VFS (real SQLite above it; the independent decoder for that store is Python's sqlite3 module reading the raw database image plus own attribute-array parser). Golden fixtures exist for the file store only."
+NOTE = "Trusted: reference model, the format specification in DESIGN 2.7 (implemented by tools/decoder.py), the simfs stub. Both object stores: a third of the generated plans run on the SQLite store, which reaches the simulated disk through a SQLite VFS (real SQLite above it; the independent decoder for that store is Python's sqlite3 module reading the raw database image plus own attribute-array parser).."
